@@ -3,6 +3,7 @@ import Skv.Lemmas.LockOrder
 import Skv.Lemmas.Stall
 import Skv.Lemmas.PipeTerm
 import Skv.Lemmas.BgWork
+import Skv.Lemmas.TaskStop
 import Skv.Props.C05
 /-!
 # C17 — commits and shutdown always complete; no internal queue overflows
@@ -388,3 +389,16 @@ writers stalled with no compaction scheduled (kernel-checked witness; replayed o
 theorem C17_checkpoints_without_wake_stall_for_good :
     let s := ({} : BgState).run false (List.replicate 12 .fgFlush)
     s.stalled = true ∧ s.scheduled = false ∧ (s.step false .compactRun).stalled = true := by decide
+
+
+/-! ## close(): the background tasks exit
+
+`TaskManager::stop` (called by `close()`) sets the stop flag, wakes both tasks with the permit-storing
+`notify_one`, waits until neither reports `running`, and joins their handles.  The join returns because each
+task exits whatever it was doing when the stop arrived — parked, busy with a flush or compaction round,
+or not yet polled — and whatever further wake-ups (commits, flushes, other `notify_one` / `notify_waiters`
+calls) arrive meanwhile (the task model and its theorem are shared with C19). -/
+theorem C17_close_stops_background_tasks (memtableTask levelTask : TState) (ops1 ops2 : List TOp) :
+    (((memtableTask.step .setStop).step .notifyOne).run ops1).settle.phase = .exited ∧
+    (((levelTask.step .setStop).step .notifyOne).run ops2).settle.phase = .exited :=
+  ⟨task_exits_after_stop memtableTask ops1, task_exits_after_stop levelTask ops2⟩
